@@ -147,6 +147,31 @@ def check(run, tier, seed):
 
 
 def replay(run, path):
+    c = json.loads(open(path).read())
+    if 'call' in c:
+        import random
+        kind = c['kind']
+        hit = None
+        for it in range(400):                       # the malformed call picks its node / edge with random.Random(it)
+            g = H.new_graph(kind)
+            for op in c['ops']:
+                H.apply_op(g, H._tup(op))
+            for lab, f in malformed_calls(g, random.Random(it), kind):
+                if lab != c['call']:
+                    continue
+                before = plain_snapshot(g, kind)
+                try:
+                    f()
+                except Exception as e:  # noqa: BLE001
+                    if plain_snapshot(g, kind) != before:
+                        hit = f'{lab} raised {type(e).__name__} but the graph changed'
+                break
+            if hit:
+                break
+        print('off-model rejected call:', hit)
+        if hit:
+            run.violation(dict(c, why=hit), note=hit[:200])
+        return 1 if run.violations else 0
     return HP.replay_file(run, path, unchanged, 'C03')
 
 
